@@ -905,7 +905,7 @@ namespace Dune
         low = probe+1;
     }
 
-    if(probe==-1)
+    if(localIndices_.size()==0)
       DUNE_THROW(RangeError, "No entries!");
 
     if( localIndices_[low].global() != global)
@@ -947,7 +947,7 @@ namespace Dune
         low = probe+1;
     }
 
-    if(probe==-1)
+    if(localIndices_.size()==0)
       DUNE_THROW(RangeError, "No entries!");
 
     if( localIndices_[low].global() != global)
@@ -971,7 +971,7 @@ namespace Dune
         low = probe+1;
     }
 
-    if(probe==-1)
+    if(localIndices_.size()==0)
       return false;
 
     if( localIndices_[low].global() != global)
